@@ -5,12 +5,12 @@ From Scan Require Import ScanModel.
 Import ListNotations.
 Definition gen_scan_facts : scan_facts := mkScanFacts true true true true true true PhStepGrid TcWithStart PtcJoined DupRefuse.
 Definition gen_entry_points : list entry_point :=
-  [ mkEP ScanSteadyState WkSteadyState CList ParByFlag false;
-    mkEP ScanTimeCourse WkTimeCourse CDict ParByFlag true;
-    mkEP ScanProtocol WkProtocol CDict ParByFlag true;
-    mkEP ScanProtocolTimeCourse WkProtocolTimeCourse CDict ParByFlag true;
-    mkEP McSteadyState WkSteadyState CList ParMaxWorkers false;
-    mkEP McTimeCourse WkTimeCourse CDict ParMaxWorkers true;
-    mkEP McProtocol WkProtocol CDict ParMaxWorkers true;
-    mkEP McProtocolTimeCourse WkProtocolTimeCourse CDict ParMaxWorkers true;
-    mkEP McScanSteadyState WkParameterScan CDictOfScans ParMaxWorkers true ].
+  [ mkEP ScanSteadyState WkSteadyState CList ParByFlag false Y0IntoModel true;
+    mkEP ScanTimeCourse WkTimeCourse CDict ParByFlag true Y0IntoModel false;
+    mkEP ScanProtocol WkProtocol CDict ParByFlag true Y0IntoModel false;
+    mkEP ScanProtocolTimeCourse WkProtocolTimeCourse CDict ParByFlag true Y0IntoModel false;
+    mkEP McSteadyState WkSteadyState CList ParMaxWorkers false Y0IntoModel true;
+    mkEP McTimeCourse WkTimeCourse CDict ParMaxWorkers true Y0IntoModel false;
+    mkEP McProtocol WkProtocol CDict ParMaxWorkers true Y0IntoModel false;
+    mkEP McProtocolTimeCourse WkProtocolTimeCourse CDict ParMaxWorkers true Y0IntoModel false;
+    mkEP McScanSteadyState WkParameterScan CDictOfScans ParMaxWorkers true Y0IntoModel false ].
